@@ -367,3 +367,7 @@ package drpcstream
 //@ func (*Stream).IsTerminated
 //@   props C03
 //@   ensures [term] result == sTerm(s)
+
+// Set once by NewWithOptions, never assigned again (checked by a scan of every function of the package).
+//@ immutable Stream.wr
+//@   props C10 C03 C12 C05
